@@ -982,6 +982,22 @@ def flag_types(ctx):
     ctx.floor('FLAG-TYPES', 1 + len(uses), 1)
 
 
+def system_kept(ctx):
+    """writing a file does not change the system written: the writers take copies of the per-atom arrays (atoms_prop / conversions) and never write into what `system` still owns --
+    a POSCAR written with a scale factor would otherwise leave the caller's positions divided by it, and every later file of the same system would be wrong"""
+    from .. import effects
+    n = 0
+    for rel in (PD, DD, TD):
+        fn = ctx.fn(rel, 'dump')
+        n += 1
+        muts, eff = effects.param_mutations(fn, {'system'}, summaries={'system.atoms_prop': ('fresh',), '.atoms_prop': ('fresh',), '.position_cartesian_to_relative': ('fresh',), 'deepcopy': ('fresh',),
+                                                                      '.get_in_units': ('fresh',), 'uc.get_in_units': ('fresh',), '.atoms.df': ('fresh',), 'system.atoms.df': ('fresh',),
+                                                                      'system.atoms_df': ('fresh',), '.atoms_df': ('fresh',)})   # System.atoms_df builds a new DataFrame from copies on every call
+        ctx.ob('SYSTEM-KEPT', rel + '::dump', 'the system passed in is not written to (values are taken as copies before they are scaled or converted)', not muts,
+               '; '.join('%s at line %d' % (w, nd.lineno) for nd, r, w in muts), node=muts[0][0] if muts else fn, key='system kept ' + rel)
+    ctx.floor('SYSTEM-KEPT', n, 3)
+
+
 def run(ctx):
     ctx.explanation = ('C07: the three writers are evaluated by the analyser on model systems whose cell, counts and per-atom columns are symbols; the '
                        'reconstructed text (skeleton + values) is compared with the published line formats (LAMMPS read_data / dump, VASP POSCAR) for every '
@@ -1004,4 +1020,4 @@ def run(ctx):
     def _precedence(c):
         _c09._MOD[0] = c.mod('atomman/unitconvert.py')
         _c09.precedence(c)
-    ctx.run_rules([prop_tables, data_file, dump_file, tables, poscar, system_wrap, fresh_tables, flag_types, _precedence, box_cache, style_electrical])
+    ctx.run_rules([prop_tables, data_file, dump_file, tables, poscar, system_wrap, fresh_tables, flag_types, _precedence, box_cache, style_electrical, system_kept])
